@@ -279,7 +279,7 @@ def do_validate(p):
         keep.add("enabled")
     before = tree_of(proc, keep)
     steps = [ParameterValues(key=k, values=[1, 2], enabled=en) for k, en in zip(p["keys"], p["step_enabled"])]
-    obs = Observation(parameters=steps, readout=Readout(times=[1.0]))
+    obs = Observation(parameters=steps, readout=Readout(times=[1.0]), mode=p.get("mode", "product"))
     res = None
     try:
         obs.validate_steps(proc)
